@@ -303,7 +303,7 @@ class Evaluator:
             self.decisions = []
             self.events = []
             self._pending: List[List[bool]] = []
-            env = Env(make_args(), None, fi.module)
+            env = Env(self._bind_entry(fi, make_args(), body), None, fi.module)
             try:
                 try:
                     stmts = body if body is not None else fi.node.body
@@ -319,6 +319,17 @@ class Evaluator:
             for alt in self._pending:
                 stack.append(alt)
         return outcomes
+
+    @staticmethod
+    def _bind_entry(fi, args: dict, body):
+        """The harnesses name the arguments of the analysed function by today's parameter names.  If a (private)
+        function's parameters were renamed, bind by position instead - a rename is not a behaviour change."""
+        if body is not None or not hasattr(fi, "all_param_names"):
+            return args
+        names = fi.all_param_names()
+        if set(args) <= set(names) or len(args) != len(names):
+            return args
+        return dict(zip(names, args.values()))
 
     def decide(self, node, env) -> bool:
         """Truth of a TOP condition: replay the prefix, then take True and queue False."""
